@@ -102,6 +102,15 @@ func (fc *FnCtx) chanRecv(fr *Frame, st *State, chv ssa.Value, ch Term, elem typ
 		}
 		st.cells[k] = fc.nameTerm("ctxdone", tOr(old, cond))
 	}
+	// ghost receive counter (recvd("Struct.field") in contracts): how often this function received from the channel
+	if k := fc.recvKey(chv); k != "" {
+		ck := cellKey{0, "recvd:" + k}
+		old, ok := st.cells[ck].(Term)
+		if !ok {
+			old = intLit(0)
+		}
+		st.cells[ck] = fc.nameTerm("recvd", tIte(cond, tAdd(old, intLit(1)), old))
+	}
 	v := fc.havocValue(st, "recv", elem)
 	ci := fc.chanInvFor(chv)
 	if ci != nil {
@@ -222,6 +231,22 @@ func (fc *FnCtx) checkStepInv(fr *Frame, st *State, instr ssa.Instruction) {
 		fc.obligeClause(st, "stepinv", clauseLabel(si, i), t, si, instr.Pos())
 	}
 	_ = fmt.Sprint
+}
+
+// recvKey names the ghost receive counter of a channel the way contracts write it ("Struct.field",
+// "(*T).method.local"); "" for channels without a stable name and for ctx.Done().
+func (fc *FnCtx) recvKey(chv ssa.Value) string {
+	key := fc.chanKeyOf(chv)
+	if key == "" || key == "ctx.Done" {
+		return ""
+	}
+	if ci := fc.chanInvFor(chv); ci != nil {
+		return ci.Key
+	}
+	if i := strings.Index(key, "."); i >= 0 && !strings.Contains(key, "(") {
+		return key[i+1:] // drop the package prefix
+	}
+	return key
 }
 
 // isUserCallback: the called function value comes from a local variable, parameter or captured variable
